@@ -39,6 +39,7 @@
 #include "common/util.h"
 #include "common/vnet.h"
 #include <stdarg.h>
+#include <unistd.h>
 
 /* ------------------------------------------------------------------ string builders */
 typedef struct { char *s; size_t n, cap; } sb_t;
@@ -201,7 +202,14 @@ static void on_nack(coap_session_t *s, const coap_pdu_t *sent, const coap_nack_r
   }
 }
 
+/* a (broken) library that sends without end must not take the machine down: the case is given
+ * up, the process exits with status 3 and the check reports the crash */
+#define RUNAWAY_DGRAMS 200000
 static void hook_send(size_t idx) {
+  if (vn_nout > RUNAWAY_DGRAMS) {
+    fputs("runaway: more than 200000 datagrams in one case\n", stderr);
+    _exit(3);
+  }
   if (vn_out[idx].ctx == cli && cli) {
     char b[160];
     dg_describe(b, sizeof(b), vn_out[idx].data, vn_out[idx].len);
@@ -782,6 +790,7 @@ int main(void) {
   setvbuf(stdout, NULL, _IOLBF, 0);
   while (next_case(stdin)) {
     if (vntok == 0) { puts(""); continue; }
+    alarm(40);                       /* wall-clock guard per case (SIGALRM ends the process) */
     if (!strcmp(vtok[0], "exc")) do_exc();
     else if (!strcmp(vtok[0], "exe")) do_exe();
     else if (!strcmp(vtok[0], "exw")) do_exw();
